@@ -549,6 +549,42 @@ def rule_staterec(ctx, prop='C04'):
     return n + 3
 
 
+def rule_statealias(ctx, prop='C04'):
+    '''DB.flush_dbs / flush_backup write flush_count (and the timers) into flush_data.state.  The block processor persists
+    ITS state in the next backup batch, so those write-backs must land in the block processor's own state object: the
+    FlushData handed over must carry self.state itself, not a copy.'''
+    rule = f'{prop}.STATEALIAS'
+    n = 0
+    dbrel = ctx.repo.path('db')
+    wb = []
+    for f in ctx.repo.funcs.values():
+        if f.unit.relpath != dbrel or f.cls != 'DB' or len(f.params) < 2:
+            continue
+        for s_ in f.own_nodes():
+            if isinstance(s_, ast.Assign):
+                for t in s_.targets:
+                    if isinstance(t, ast.Attribute) and isinstance(t.value, ast.Attribute) and t.value.attr == 'state' \
+                            and isinstance(t.value.value, ast.Name) and t.value.value.id in f.params[1:]:
+                        wb.append((f, s_, t.attr))
+    if not any(a == 'flush_count' for _f, _s, a in wb):
+        return 0     # nothing is written back through the hand-over object any more
+    bp = ctx.repo.path('bp')
+    for f in ctx.repo.funcs.values():
+        if f.unit.relpath != bp:
+            continue
+        for c in f.own_nodes():
+            if isinstance(c, ast.Call) and norm(c.func) == 'FlushData':
+                arg = c.args[0] if c.args else next((k.value for k in c.keywords if k.arg == 'state'), None)
+                n += 1
+                ctx.check(arg is not None and ctx.res.canon(arg, f) == 'self.state', rule, ctx.key(f, q.stmt(c), 'live state handed over'),
+                          'the flush hand-over carries the block processor\'s own state object; flush_count written by the DB reaches it',
+                          f'the flush hand-over carries `{norm(arg) if arg is not None else "?"}`: flush_count written back by the DB '
+                          f'({", ".join(sorted({ctx.loc(g, s_) for g, s_, a in wb if a == "flush_count"}))}) never reaches the block '
+                          'processor\'s state, so the next backup batch persists a stale history flush count and the start-up scrub '
+                          'deletes committed history', loc=ctx.loc(f, c))
+    return n + len(wb)
+
+
 def rule_who(ctx, prop='C04'):
     ws = writers(ctx)
     if len(ws) < 9:
@@ -596,5 +632,6 @@ def run(ctx):
     ctx.rule('C04.POINTERS', lambda: rule_pointers(ctx), 3)
     ctx.rule('C04.STATEREC', lambda: rule_staterec(ctx), 6)
     ctx.rule('C04.WHO', lambda: rule_who(ctx)[0], 9)
+    ctx.rule('C04.STATEALIAS', lambda: rule_statealias(ctx), 2)
     ctx.rule('C04.WHO-control', lambda: positive_control_who(ctx))
     ctx.note(f'inlined effect graph of DB.flush_dbs: {ig.stats()}')
